@@ -193,7 +193,7 @@ class C03(SingleRun):
             "status other than succeeded, or >= 2 quiescent points in one run")
     faults = dict(poll_skip=0.1, poll_twice=0.05, restart=0.03, pause=0.04, resume_early=0.05, cancel=0.04,
                   bad_request=0.02, rerun=0.5, pending=0.05, cancel_while_pausing=0.1, act_cancel_solo=0.02, early_pause=0.3,
-                  early_cancel=0.15)
+                  early_cancel=0.15, cancel_at_retry=0.05, pause_at_retry=0.05)
 
     def profile(self, seed, tier, as_prop=None):
         p = SingleRun.profile(self, seed, tier, as_prop)
@@ -291,7 +291,7 @@ class C10(SingleRun):
             "success, failure, timeout or canceled; joins, retries and with-items windows downstream; non-trivial = >= 1 action in "
             "flight at the request and a join, retry or with-items task in the definition")
     faults = dict(poll_skip=0.05, restart=0.03, cancel=0.12, pause=0.04, resume_early=0.1, p_fail=0.1, bad_request=0.02,
-                  cancel_while_pausing=0.1, act_cancel_solo=0.02, early_pause=0.2, early_cancel=0.3)
+                  cancel_while_pausing=0.1, act_cancel_solo=0.02, early_pause=0.2, early_cancel=0.3, cancel_at_retry=0.15)
 
     def profile(self, seed, tier, as_prop=None):
         p = SingleRun.profile(self, seed, tier, as_prop)
@@ -355,7 +355,8 @@ class C13(SingleRun):
     RULE = ("retry count 0..3 (literal or expression), default / custom when, delay, per-attempt outcome sequences, placement in "
             "sequence / branch / loop, sibling branches running, pause/cancel elsewhere; non-trivial = >= 1 retry happened while a "
             "sibling branch had an action in flight")
-    faults = dict(poll_skip=0.1, poll_twice=0.05, restart=0.05, pause=0.02, cancel=0.01, p_fail=0.35, resume_early=0.1)
+    faults = dict(poll_skip=0.1, poll_twice=0.05, restart=0.05, pause=0.02, cancel=0.01, p_fail=0.35, resume_early=0.1,
+                  cancel_at_retry=0.04, pause_at_retry=0.06)
     require_features = ["retry"]
 
     def profile(self, seed, tier, as_prop=None):
